@@ -88,8 +88,9 @@ ParsesF64(src) ==
 LastDigit(src) == LET S == {i \in 1..Len(src) : src[i] \in Digits} IN
                   IF S = {} THEN 0 ELSE CHOOSE i \in S : \A j \in S : j <= i
 RECURSIVE LongestParse(_, _)
+\* the literal must end in a digit (a trailing '.' is the sentence's period)
 LongestParse(src, n) == IF n = 0 THEN 0
-                        ELSE IF ParsesF64(SubSeq(src, 1, n)) THEN n ELSE LongestParse(src, n - 1)
+                        ELSE IF src[n] \in Digits /\ ParsesF64(SubSeq(src, 1, n)) THEN n ELSE LongestParse(src, n - 1)
 LexNumber(src) ==
   IF src = <<>> \/ Head(src) \notin UniNumeric THEN None
   ELSE LET n == LongestParse(src, LastDigit(src)) IN IF n = 0 THEN None ELSE Tok("Number", n, 10)
